@@ -1612,9 +1612,28 @@ def _make_sim(si):
     return cirq.DensityMatrixSimulator(dtype=np.complex128, seed=11)
 
 
-def _sim_sweep():
+def _sim_sweeps():
+    """(name, sweepable, [(a, b), ...]).  #0 has distinct assignments; the others visit an assignment more than once
+    (duplicate of the LAST point first / in the middle, all points equal, Concat sharing end values, equal resolvers in
+    a ListSweep / plain list, Product / ZipLongest producing repeated rows): the shared unparameterized-prefix state must
+    be copied for every point but the last, whatever the assignments are."""
     g = abs(core.generic(_SEED, 0)) + 0.1
-    return cirq.Product(cirq.Points("a", [g, 0.5]), cirq.Linspace("b", 0, 1, 2)), [(g, 0.0), (g, 1.0), (0.5, 0.0), (0.5, 1.0)]
+    P, Z = cirq.Points, cirq.Zip
+    return [
+        ("distinct", cirq.Product(P("a", [g, 0.5]), cirq.Linspace("b", 0, 1, 2)), [(g, 0.0), (g, 1.0), (0.5, 0.0), (0.5, 1.0)]),
+        ("closed loop (first == last)", Z(P("a", [0.5, g, 0.5]), P("b", [0.25, 1.0, 0.25])), [(0.5, 0.25), (g, 1.0), (0.5, 0.25)]),
+        ("last point also in the middle", Z(P("a", [g, 0.5, 0.3, 0.5]), P("b", [0.0, 0.25, 1.0, 0.25])),
+         [(g, 0.0), (0.5, 0.25), (0.3, 1.0), (0.5, 0.25)]),
+        ("all points equal", Z(P("a", [g, g, g]), P("b", [0.5, 0.5, 0.5])), [(g, 0.5)] * 3),
+        ("Concat sharing end values", cirq.Product(cirq.Concat(cirq.Linspace("a", 1.0, 0.0, 3), cirq.Linspace("a", 0.5, 0.0, 2)), P("b", [g])),
+         [(1.0, g), (0.5, g), (0.0, g), (0.5, g), (0.0, g)]),
+        ("ListSweep with equal resolvers", cirq.ListSweep([{"a": g, "b": 0.5}, {"a": 0.3, "b": 0.125}, {"a": g, "b": 0.5}, {"a": g, "b": 0.5}]),
+         [(g, 0.5), (0.3, 0.125), (g, 0.5), (g, 0.5)]),
+        ("plain list of resolvers with a duplicate of the last", [cirq.ParamResolver({"a": 0.75, "b": g}), {"a": 0.25, "b": 0.0}, cirq.ParamResolver({"a": 0.75, "b": g})],
+         [(0.75, g), (0.25, 0.0), (0.75, g)]),
+        ("Product / ZipLongest with repeated rows", cirq.Product(cirq.ZipLongest(P("a", [0.5, g, 0.5]), P("b", [0.25])), cirq.UnitSweep),
+         [(0.5, 0.25), (g, 0.25), (0.5, 0.25)]),
+    ]
 
 
 def _mk_circuit(seq, layout, a, b):
@@ -1624,13 +1643,13 @@ def _mk_circuit(seq, layout, a, b):
 
 
 def run_sim_sweep(case):
-    seq, layout, si = case
+    seq, layout, si, wi = case
     L = sim_letters()
     circ = _mk_circuit(seq, layout, SA, SB)
-    sweep, pts = _sim_sweep()
+    wname, sweep, pts = _sim_sweeps()[wi]
     sim = _make_sim(si)
     init = 2 if si == 3 else 0
-    desc = f"{SIMS[si]}.simulate_sweep(Circuit({[L[i][0] for i in seq]}, {'one op per moment' if layout == 0 else 'packed'}), {sweep!r})"
+    desc = f"{SIMS[si]}.simulate_sweep(Circuit({[L[i][0] for i in seq]}, {'one op per moment' if layout == 0 else 'packed'}), {sweep!r} [{wname}])"
     prefix_len = 0
     for i in seq:
         if L[i][2]:
@@ -1662,12 +1681,13 @@ def run_sim_sweep(case):
         single = sim.simulate(circ, cirq.ParamResolver({"a": av, "b": bv}), qubit_order=[Q0, Q1], **kw)
         if not np.allclose(state_of(single), got, atol=1e-8):
             return bad(f"{desc}: result #{i} differs from simulate(circuit, {{a:{av}, b:{bv}}})", kind="simulate_sweep")
-    return good(nontrivial=any(L[i][2] for i in seq), max_prefix=prefix_len)
+    return good(nontrivial=any(L[i][2] for i in seq), max_prefix=prefix_len, repeated_assignment_sweeps=1 if wi else 0)
 
 
 def describe_sim(case):
-    seq, layout, si = case
-    return {"ops": [sim_letters()[i][0] for i in seq], "layout": ["one op per moment", "packed"][layout], "simulator": SIMS[si]}
+    seq, layout, si, wi = case
+    return {"ops": [sim_letters()[i][0] for i in seq], "layout": ["one op per moment", "packed"][layout], "simulator": SIMS[si],
+            "sweep": _sim_sweeps()[wi][0]}
 
 
 def sim_sweep_cases(tier):
@@ -1680,7 +1700,18 @@ def sim_sweep_cases(tier):
                 for si in range(len(SIMS)):
                     if k == Lmax and si in (1, 3):
                         continue
-                    out.append((seq, layout, si))
+                    out.append((seq, layout, si, 0))
+    # sweeps that visit an assignment more than once: every sequence (= every unparameterized-prefix length), both
+    # layouts, state-vector and density-matrix simulators
+    nw = len(_sim_sweeps())
+    for k in range(1, Lmax + 1):
+        for seq in itertools.product(range(n), repeat=k):
+            for layout in (0, 1):
+                for si in (0, 2):
+                    if tier == "quick" and k == Lmax and (layout == 0 or si == 2):
+                        continue
+                    for wi in range(1, nw):
+                        out.append((seq, layout, si, wi))
     return out
 
 
@@ -1696,17 +1727,21 @@ def run_letters():
 
 
 def run_run_sweep(case):
-    seq, si = case
+    seq, si, wi = case
     L = run_letters()
     mk = lambda a, b: cirq.Circuit([L[i][1](a, b) for i in seq] + [cirq.measure(Q0, Q1, key="m")])
     circ = mk(SA, SB)
-    sweep = cirq.Product(cirq.Points("a", [0, 1]), cirq.Points("b", [1, 0]))
-    pts = [(0, 1), (0, 0), (1, 1), (1, 0)]
+    if wi == 0:
+        sweep = cirq.Product(cirq.Points("a", [0, 1]), cirq.Points("b", [1, 0]))
+        pts = [(0, 1), (0, 0), (1, 1), (1, 0)]
+    else:  # repeated assignments (the last one also first and in the middle)
+        sweep = cirq.Zip(cirq.Points("a", [1, 0, 1, 1]), cirq.Points("b", [0, 1, 0, 0]))
+        pts = [(1, 0), (0, 1), (1, 0), (1, 0)]
     sim = cirq.Simulator(seed=5) if si == 0 else cirq.DensityMatrixSimulator(seed=5)
     desc = f"{'Simulator' if si == 0 else 'DensityMatrixSimulator'}.run_sweep(Circuit({[L[i][0] for i in seq]} + measure(q0,q1,key='m')), {sweep!r}, repetitions=3)"
     results = sim.run_sweep(circ, sweep, repetitions=3)
-    if len(results) != 4:
-        return bad(f"{desc}: {len(results)} results for 4 assignments", kind="run_sweep")
+    if len(results) != len(pts):
+        return bad(f"{desc}: {len(results)} results for {len(pts)} assignments", kind="run_sweep")
     for i, (av, bv) in enumerate(pts):
         u = cirq.Circuit([L[j][1](av, bv) for j in seq]).unitary(qubit_order=[Q0, Q1])
         psi = u[:, 0]
@@ -1729,7 +1764,8 @@ def run_sweep_cases(tier):
     for k in range(1, (3 if tier == "quick" else 4) + 1):
         for seq in itertools.product(range(n), repeat=k):
             for si in (0, 1):
-                out.append((seq, si))
+                for wi in (0, 1):
+                    out.append((seq, si, wi))
     return out
 
 
